@@ -19,7 +19,7 @@ func findCalls(E *Effects, fn *ssa.Function, pattern string) []ssa.CallInstructi
 		if strings.HasSuffix(pattern, "*") {
 			return strings.HasPrefix(s, strings.TrimSuffix(pattern, "*"))
 		}
-		return s == pattern
+		return s == pattern || (closureAlias[pattern] != "" && s == closureAlias[pattern])
 	}
 	for _, ci := range E.byFn[fn] {
 		if match(ci.Label) || match(callName(ci.Instr)) {
